@@ -4,6 +4,7 @@ import Gin.Drv.GinDom
 import Gin.Drv.ScopesDom
 import Gin.Drv.ParseDom
 import Gin.Drv.SchedDom
+import Gin.Drv.ExcDom
 open Lean Gin.Drv
 
 def handle (j : Json) : Json :=
@@ -13,6 +14,7 @@ def handle (j : Json) : Json :=
   | "scopes" => Gin.Drv.ScopesDom.run j
   | "parse" => Gin.Drv.ParseDom.run j
   | "sched" => Gin.Drv.SchedDom.run j
+  | "exc" => Gin.Drv.ExcDom.run j
   | "parse2" => Json.mkObj [("runs", Json.arr ((jarr (jfield j "runs")).map Gin.Drv.ParseDom.run).toArray)]
   | d => Json.mkObj [("error", Json.str s!"unknown domain {d}")]
 
